@@ -87,7 +87,7 @@ func normNumbers(v interface{}) interface{} { n, _ := gqlfix.Norm(v); return n }
 // judged against the single server's answer to the equivalent query with the fragment inlined.
 var unionNameInlined = map[string]string{
 	`{ everyone { ...People } } fragment People on Everyone { ... on Admin { id hiding } ... on User { id email secret } }`: `{ everyone { ... on Admin { id hiding } ... on User { id email secret } } }`,
-	`{ everyone { __typename ... on Everyone { ... on User { name age } ... on Admin { power } } } }`:                     `{ everyone { __typename ... on User { name age } ... on Admin { power } } }`,
+	`{ everyone { __typename ... on Everyone { ... on User { name age } ... on Admin { power } } } }`:                       `{ everyone { __typename ... on User { name age } ... on Admin { power } } }`,
 }
 
 // dropExtraTypename removes "__typename" keys from got wherever want (the same position in the
